@@ -133,6 +133,16 @@ def _layout(arr: np.ndarray, layout: str) -> np.ndarray:
     return arr
 
 
+def _as_index(labels: list):
+    """Integer labels in arithmetic progression are given as a pandas RangeIndex (start/step/length instead of the
+    labels themselves): an equal value with another in-memory representation of its index."""
+    if labels and all(type(x) is int for x in labels):
+        step = labels[1] - labels[0] if len(labels) > 1 else 1
+        if step != 0 and all(b - a == step for a, b in zip(labels, labels[1:])):
+            return pd.RangeIndex(labels[0], labels[0] + step * len(labels), step)
+    return labels
+
+
 def build(r):
     if not isinstance(r, dict):
         return r
@@ -182,10 +192,10 @@ def build(r):
             flat = np.array(vals, dtype=r["dtype"])
         return _layout(flat.reshape(tuple(r["shape"])), r.get("layout", "c"))
     if k == "series":
-        idx = None if r["index"] is None else [build(x) for x in r["index"]]
+        idx = None if r["index"] is None else _as_index([build(x) for x in r["index"]])
         return pd.Series([build(x) for x in r["values"]], index=idx, name=build(r["name"]), dtype=r["dtype"])
     if k == "df":
-        idx = list(range(r["nrows"])) if r["index"] is None else [build(x) for x in r["index"]]
+        idx = list(range(r["nrows"])) if r["index"] is None else _as_index([build(x) for x in r["index"]])
         cols = collections.OrderedDict()
         for c in r["cols"]:
             cols[build(c["name"])] = pd.Series([build(x) for x in c["values"]], index=idx, dtype=c["dtype"])
@@ -1552,9 +1562,13 @@ def s_memo(draw):
     pool.append(draw(s_value(1)))
     calls = []
     for _ in range(draw(st.integers(3, 7))):
-        form = draw(st.sampled_from(["a", "a", "aa", "k", "ak"]))
+        form = draw(st.sampled_from(["a", "a", "aa", "k", "ak", "p", "ap", "kk"]))
         args = [pool[draw(st.integers(0, len(pool) - 1))] for ch in form if ch == "a"]
         kwargs = {"k": pool[draw(st.integers(0, len(pool) - 1))]} if "k" in form else {}
+        if "p" in form:  # look-alike of the keyword form: the pair ('k', value) as a trailing positional argument
+            args.append({"k": "tuple", "items": ["k", pool[draw(st.integers(0, len(pool) - 1))]]})
+        if form == "kk":  # two keywords vs. one keyword whose value is ... : boundaries between arguments matter
+            kwargs["j"] = pool[draw(st.integers(0, len(pool) - 1))]
         calls.append({"args": args, "kwargs": kwargs})
     return {"cache": draw(st.sampled_from(CACHES)), "calls": calls}
 
